@@ -261,6 +261,27 @@ impl Scenario for C16 {
                 "JitterRng<fn() -> u64> is Copy: a duplicate made by copying (Cell::clone, derive(Clone, Copy) wrappers, assignment) does not go through Clone::clone and keeps the half its original still holds".to_string(),
             );
         }
+        #[cfg(feature = "jstd")]
+        if spec.pre_new {
+            // the real-clock constructor: should what it returns be cloneable, a clone taken before any output
+            // must collect for itself (two fresh 64-bit collections from a real clock are equal with
+            // probability 2^-64; nothing read from the real clock is logged)
+            use crate::gens::{CloneNo, CloneProbe, CloneYes};
+            use rand_core::RngCore;
+            let r = guard(|| -> Option<bool> {
+                let mut j = rand_jitter::JitterRng::new().ok()?;
+                let mut c = (&CloneProbe(&j)).try_clone()?;
+                Some(j.next_u64() == c.next_u64())
+            });
+            st.count("probe:real_clock_new");
+            if let Ok(Some(true)) = r {
+                return viol(
+                    "C16/clone_returns_original_value",
+                    "JitterRng:new().clone()",
+                    "a clone of JitterRng::new(), taken before any output, returned the same first 64-bit value as the original: it did not collect for itself".to_string(),
+                );
+            }
+        }
         let mut real = Side { g: build_jitter(clock.clone()) };
         let mut twin = Side { g: build_jitter(clock.clone()) };
         let mut tr = Track { pending: None, optional: false, rounds: 64 };
